@@ -512,7 +512,7 @@ def props_split(ck):
            "Eval vm_compute in (failing_flows reader_close_flows).\n"
            "Eval vm_compute in (unaccounted_chanops reader_chanops).\n"
            "Eval vm_compute in (failing_cflows reader_conn_flows).\n"
-           "Eval vm_compute in (unaccounted_qsites reader_query_sites, Nat.eqb (total_cacq reader_conn_flows) (bound_sites reader_query_sites), unaccounted_lends reader_untracked_lends).\n")
+           "Eval vm_compute in (unaccounted_qsites reader_query_sites, Nat.eqb (total_cacq reader_conn_flows) (bound_sites reader_query_sites), unaccounted_lends reader_untracked_lends, stale_exit_reviews reader_conn_flows).\n")
     rc, out = ck.coq_eval("C12_inventory", txt)
     flat = " ".join(out.split())
     parts = re.findall(r"= (.*?) : (?:list|\()", " " + flat)
@@ -527,8 +527,8 @@ def props_split(ck):
                   "goroutine bodies with a path on which a channel they send on is not closed exactly once: " + (parts[5][:900] if len(parts) > 5 else flat[-600:]))
     ck.obligation("theorem channel_ops_accounted", rc == 0 and len(parts) > 6 and parts[6].strip() == "nil",
                   "goroutine bodies whose channel operations differ from the reviewed ones (or a select without Done/default, or sends without close): " + (parts[6][:900] if len(parts) > 6 else flat[-600:]))
-    ck.obligation("theorem no_request_asks_for_a_connection_while_holding_one", rc == 0 and len(parts) > 8 and parts[7].strip() == "nil" and parts[8].strip().startswith("(nil, true, nil"),
-                  "function bodies with a path on which a connection is asked for (a statement, or a call that may issue one) while a result set of the body is still open / lent to a goroutine (file, function, unit, variable): %s; (statement sites outside every flow, every bound site is an acquisition of a flow, lending calls whose channel is not tracked): %s" % (
+    ck.obligation("theorem no_request_asks_for_a_connection_while_holding_one", rc == 0 and len(parts) > 8 and parts[7].strip() == "nil" and parts[8].strip().startswith("(nil, true, nil, nil"),
+                  "function bodies with a path on which a connection is asked for (a statement, or a call that may issue one) while a result set of the body is still open / lent to a goroutine, or that can be left with the variable holding a connection the caller does not know about (file, function, unit, variable): %s; (statement sites outside every flow, every bound site is an acquisition of a flow, lending calls whose channel is not tracked, stale reviewed exits): %s" % (
                       parts[7][:900] if len(parts) > 7 else flat[-600:], parts[8][:400] if len(parts) > 8 else "?"))
     rest = src
     for t in GENERATED_THEOREMS:
@@ -581,7 +581,7 @@ def run(ck):
         "C12: the live-tail LTS abstracts one tick's pipeline to its result (answer / error message / return) -- that pipeline is theorem tail_tick_pipeline_terminates -- and assumes time does not pass while a channel operation is ready (Go's select picks among the ready cases)",
         "C12: a Scan error in TempoService.Tags / Values / Search returns without rows.Close(): the result set is released by database/sql (Rows.awaitDone) when net/http cancels the request context -- modelled as the drainer of that cell",
         "C12: StableSqlxDBWrapper: sync.RWMutex is modelled as a writer-preferring read/write lock (RLock waits while a writer is active or announced, Lock announces one writer at a time and waits for the readers; the reader hand-off inside Unlock is one of the model's schedules); that every unit of sqlxWrap.go performs well-bracketed sections (pl_ok) rests on locks_released_on_every_path over the generated flows plus the reading of QueryCtx (the closure returns before the write lock is asked for); the harness counts pool rebuilds in the GetDB callback it hands to the real wrapper and cancels the request context itself when a scripted statement stalls",
-        "C12: connection pool: database/sql is modelled as a counter of connections (a statement takes one and blocks while none is free; the result set gives it back at Close() or when Next() returns false; a goroutine reading a result set gives it back when the channel it feeds is closed); translate/goinv_reader/connflow.go decides by name which calls may issue a statement (least fixpoint over the call graph; QueryCtx / QueryContext / Queryx = a statement, ExecCtx / ExecContext / Exec / Conn / Begin = ask-and-give-back, Exec also being the PromQL engine calling back into the reader's Queryable) and which of them lend (may issue a statement and return a channel); method calls are resolved by the receiver's written type where the unit shows it, else by name and argument count; one flow per variable and body: a result set stored in a struct field, passed to a callee or returned is followed only as far as the reviewed list says; that the per-body discipline gives the per-request discipline kn_ok of the pool theorem is argued (a callee's connection is either given back before it returns or lent through the channel it returns), not proved; the harness sets the pool size with SetMaxOpenConns on the pool behind the real wrapper",
+        "C12: connection pool: database/sql is modelled as a counter of connections (a statement takes one and blocks while none is free; the result set gives it back at Close() or when Next() returns false; a goroutine reading a result set gives it back when the channel it feeds is closed); translate/goinv_reader/connflow.go decides by name which calls may issue a statement (least fixpoint over the call graph; QueryCtx / QueryContext / Queryx = a statement, ExecCtx / ExecContext / Exec / Conn / Begin = ask-and-give-back, Exec also being the PromQL engine calling back into the reader's Queryable) and which of them lend (may issue a statement and return a channel); method calls are resolved by the receiver's written type where the unit shows it, else by name and argument count; one flow per variable and body: a result set stored in a struct field, passed to a callee or returned is followed only as far as the reviewed list says; that the per-body discipline gives the per-request discipline kn_ok of the pool theorem is argued, not proved: per body the exit-state obligation shows that a callee's connection is given back before it returns, left to a registered deferred Close, or lent through the channel / result set it returns; a return with a non-nil error is taken to end the request (context cancelled, database/sql takes the connection back) and `v, err := call; if err != nil {..}` to enter the error branch exactly when nothing was acquired; five bodies are reviewed exits (ReadConn.exit_reviewed); the harness sets the pool size with SetMaxOpenConns on the pool behind the real wrapper",
         "C12: goroutine census (runtime.Stack) and the child-process crash/hang detection of harness/cmd/readfuzz",
         "C12: go/ast translator translate/goinv_reader (recover status, operation census by name-based call following inside a package)",
     ]
